@@ -42,6 +42,7 @@ func init() {
 		"crypto/subtle.XORBytes":       nil,
 		"time.Now":                     inTimeNow,
 		"time.Since":                   func(e *Exec, a []Value, s *ssa.CallCommon) Value { return e.tb.Const(64, 0) },
+		"time.runtimeNano":            func(e *Exec, a []Value, s *ssa.CallCommon) Value { return e.tb.Const(64, 1) },
 		"runtime.KeepAlive":            func(e *Exec, a []Value, s *ssa.CallCommon) Value { return &TupleV{} },
 		"(*sync.Mutex).Lock":           func(e *Exec, a []Value, s *ssa.CallCommon) Value { return &TupleV{} },
 		"(*sync.Mutex).Unlock":         func(e *Exec, a []Value, s *ssa.CallCommon) Value { return &TupleV{} },
